@@ -74,6 +74,12 @@ func main() {
 		out := fs.String("out", "Consts.lean", "output file")
 		fs.Parse(os.Args[2:])
 		genConsts(*repo, *out)
+	case "trans":
+		fs := flag.NewFlagSet("trans", flag.ExitOnError)
+		repo := fs.String("repo", "/repo", "repository root")
+		out := fs.String("out", ".", "output directory (DDS/Generated)")
+		fs.Parse(os.Args[2:])
+		os.Exit(genTrans(*repo, *out))
 	case "run":
 		fs := flag.NewFlagSet("run", flag.ExitOnError)
 		in := fs.String("in", "ops.txt", "ops")
